@@ -250,7 +250,7 @@ class BubblePoint:
         elif liquid_conversion is None:
             f = self._T_error
             z_norm = z / z.sum()
-            z_over_P = z/P
+            z_over_P = z_norm / P
             T_guess, y = self._Ty_ideal(z_over_P)
             args = (P, z_over_P, z_norm, y)
             try:
